@@ -1,7 +1,9 @@
 """C07  Unreadable shards surface as errors: never a hang, never silent
 truncation.
 
-Finite product (sampled by Hypothesis in quick, enumerated in thorough):
+Finite product (quick: a stratified grid covering every (format, interface,
+damage, shuffle, repeat) combination once plus Hypothesis-sampled cells;
+thorough: the whole matrix enumerated):
 format x compression x dataset (2..6 shards) x damaged shard (first, middle,
 last) x damage (deleted; emptied; garbage not starting with the codec's magic;
 truncated to a generated prefix; tiny / all-0xFF for uncompressed fb) x
@@ -95,6 +97,53 @@ def enumerate_matrix(tier):
                                         "repeat": repeat,
                                         "exact_iface": True,
                                     })
+    return cells
+
+
+def enumerate_grid(tier):
+    """Quick tier: every (format, interface, damage, shuffle, repeat) cell once
+    (stratified -- no cell of that projection is left to chance); compression,
+    position, shard count and parallelism are derived from VERIF_SEED and the
+    cell index."""
+    import hashlib
+    seed = os.environ.get("VERIF_SEED", "1")
+    cells = []
+    for fmt in ("fb", "npz", "tfrec"):
+        n_if = max(len(_ifaces(fmt, ci))
+                   for ci in range(len(dsops.COMPRESSIONS[fmt])))
+        for iface in range(n_if):
+            for damage in DAMAGES:
+                if damage in ("tiny", "allff") and fmt != "fb":
+                    continue
+                for shuffle in (0, 3):
+                    for repeat in (False, True):
+                        h = int.from_bytes(
+                            hashlib.sha1(
+                                f"{seed}|{fmt}|{iface}|{damage}|{shuffle}|"
+                                f"{repeat}".encode()).digest()[:6], "big")
+                        ci = h % len(dsops.COMPRESSIONS[fmt])
+                        if damage in ("tiny", "allff"):
+                            ci = 0
+                        ifs = _ifaces(fmt, ci)
+                        if iface >= len(ifs):
+                            # e.g. the native reader does not support this
+                            # codec: take one it supports
+                            ci = 0
+                            ifs = _ifaces(fmt, ci)
+                        cells.append({
+                            "fmt": fmt,
+                            "comp": ci,
+                            "s": 2 + (h >> 8) % 5,
+                            "eps": 1 + (h >> 12) % 3,
+                            "pos": POSITIONS[(h >> 16) % 3],
+                            "damage": damage,
+                            "frac": 1 + (h >> 20) % 99,
+                            "iface": iface,
+                            "shuffle": shuffle,
+                            "fp": ["1", "2", "S", "S+2"][(h >> 28) % 4],
+                            "repeat": repeat,
+                            "exact_iface": True,
+                        })
     return cells
 
 
@@ -295,11 +344,18 @@ def on_timeout(case):
 
 
 STAGES = [
+    Stage(name="grid",
+          run=run_case,
+          enumerate=enumerate_grid,
+          fork=True,
+          rust=True,
+          timeout=90,
+          timeout_violation=on_timeout),
     Stage(name="cells",
           run=run_case,
           strategy=strategy,
           examples={
-              "quick": 1200,
+              "quick": 700,
               "thorough": 4000
           },
           fork=True,
